@@ -27,6 +27,11 @@ CaseRec ==
           lay |-> [i \in 1..Len(cur) |-> RtcpLayout(cur[i])], offs |-> CompoundOffsets(cur),
           lost24 |-> [k \in 1..Len(cur) |->
                         [i \in 1..Len(cur[k].a) |-> IF cur[k].t \in {"SR", "RR"} THEN Lost24(cur[k].a[i]) ELSE 0]]]
+    [] Mode = "foreign" ->
+         [mode |-> "foreign", parts |-> cur, survivors |-> Survivors(cur),
+          lens |-> [i \in 1..Len(cur) |-> ForeignLen(cur[i])],
+          lost24 |-> [k \in 1..Len(cur) |->
+                        [i \in 1..Len(cur[k].a) |-> IF cur[k].t \in {"SR", "RR"} THEN Lost24(cur[k].a[i]) ELSE 0]]]
     [] Mode = "ext" ->
          [mode |-> "ext", base |-> cur.base, ops |-> hist, res |-> cur.res, map |-> cur.map,
           datalen |-> ExtMapDataLen(cur.map)]
@@ -45,6 +50,7 @@ CaseRec ==
 
 \* machines: a case is worth executing once at least one operation has been applied
 Emittable == Mode \in {"rtp", "rtcp", "nack", "rtx"} \/ (Mode = "compound" /\ Len(cur) >= 2)
+             \/ (Mode = "foreign" /\ \E i \in 1..Len(cur) : IsForeign(cur[i]))
              \/ (Mode \in {"ext", "buf", "gap"} /\ Len(hist) >= 1)
 
 Emit   == Emittable => PrintT(<<"CASE", ToJson(CaseRec)>>)
